@@ -18,7 +18,8 @@ LEVEL_NOTE = 'trusted: vk/gen_netlist.py (description is the ground truth), vk/h
 DESIGN_REF = 'DESIGN.md section 3 C11'
 LEVEL = 'exploration'
 RULE = ('Cases: (netlist description, rendering seed, format, branchforks). Non-trivial iff the rendering contains a bus of width >= 2 or an assign and the netlist has an '
-        'asymmetric cell. Distinct = digest of the rendered text + options.')
+        'asymmetric cell. Distinct = digest of the rendered text + options.'
+        ' Renderer variety added later: assigns sharing an unresolved source, chains up to depth 4, escaped identifiers ended by tab/LF/CRLF, upper-case bases and other spellings of constants, width-one vectors by plain name, buses up to 70 bits with multi-digit bounds, one netlist of 150-320 instances per shard; texts reach the parser through parse(), load(path), load(.gz) or load(file object).')
 ASSUMPTIONS = ['named pin connections only; every signal has exactly one driver; assign targets are not driven otherwise',
                'the order of input/output declaration statements equals the header order (so "declaration order" has one reading)',
                'state elements are matched by instance name']
